@@ -111,7 +111,11 @@ SlotStep(e, reg, calls, st, i) ==
                       THEN IF slot.kind \in DataUriKinds
                            THEN (e.err.kind # "nil") \/ RJ("SWALLOWURI", i)
                            ELSE /\ (e.err.kind # "nil") \/ RJ("SWALLOW", i)
-                                /\ (e.err.kind = "nil" \/ (IF en.cmd = 3 THEN e.err.kind = "stub" /\ e.err.sid = c.sid ELSE Located(e, slot)))
+                                /\ (e.err.kind = "nil" \/ (\/ Located(e, slot)
+                                                           \* an error value without position information (not a *parse.Error) can only be
+                                                           \* handed on as it is: by the stub itself, or by a real minifier that met it deeper down
+                                                           \/ en.cmd = 3 /\ e.err.kind = "stub" /\ e.err.sid = c.sid
+                                                           \/ en.cmd = 4 /\ e.err.kind = "stub"))
                                      \/ RJ("LOCATED", i)
                       ELSE SlotOutOK(slot, c, o) \/ RJ("SLOTOUT", i)
          IN IF ok THEN [ci |-> st.ci + 1, stopped |-> c.fail /\ slot.kind \notin DataUriKinds]
